@@ -2,7 +2,7 @@
    operation of dimarray that the model covers, and its dispatch onto the model. *)
 From DA Require Import Prelude NDArray Array.
 From DA Require Import PyRT.
-From DA.Model Require Import Value Reshape Indexing.
+From DA.Model Require Import Value Reshape Indexing Align.
 Open Scope string_scope.
 Open Scope nat_scope.
 
@@ -18,6 +18,18 @@ Inductive op :=
 | OGet (f : form) (tol : tolv) (keepdims : bool)
 | OPut (f : form) (tol : tolv) (r : rhs) (cast : bool)
 | OPutMask (m : list bool) (r : rhs) (cast : bool)
+| OReindex (k : kind) (news : list label) (r : axref) (fill : cell) (fk : kind) (raise_error : bool) (m : rmethod)
+| OReindexAxisObj (nx : axis)
+| OReindexLike (i : nat)
+| OAlign (j : join) (ax : option string) (sort : bool)
+| OBinop (o : binop) (i : nat)
+| OBinopR (o : binop) (i : nat)          (* ins[i] op a *)
+| OScalarOp (o : binop) (c : cell) (k : kind) (reflected : bool)
+| ONdarrayOp (o : binop) (w : nd)
+| OStack (name : option string) (kk : kind) (keys : list label) (al sort : bool)
+| OConcat (r : axref) (al sort : bool)
+| OSortAxis (r : axref)
+| OBroadcastArrays
 .
 
 Definition dflt_arr : darr := Arr [] [] KF [CNaN] [].
@@ -38,6 +50,18 @@ Definition apply_op (ins : list darr) (o : op) (a : darr) : res value :=
   | OGet f tol kd => getitem f tol kd a
   | OPut f tol r c => arr1 (setitem f tol r c) a
   | OPutMask m r c => arr1 (setmask m r c) a
+  | OReindex k news r fill fk re m => arr1 (reindex_axis k news r fill fk re m) a
+  | OReindexAxisObj nx => arr1 (reindex_to_axis nx) a
+  | OReindexLike i => arr1 (reindex_like (axes (nth i ins dflt_arr))) a
+  | OAlign j ax srt => let! l := align ins j ax srt false in Ok (VArrs l)
+  | OBinop o i => arr1 (fun a => operation o a (nth i ins dflt_arr)) a
+  | OBinopR o i => arr1 (fun a => operation o (nth i ins dflt_arr) a) a
+  | OScalarOp o c k refl => arr1 (op_scalar o c k refl) a
+  | ONdarrayOp o w => arr1 (op_ndarray o w) a
+  | OStack n kk keys al srt => let! r := stack ins n kk keys al srt in Ok (VArr r)
+  | OConcat r al srt => let! x := concatenate ins r al srt in Ok (VArr x)
+  | OSortAxis r => arr1 (sort_axis r) a
+  | OBroadcastArrays => let! l := broadcast_arrays ins in Ok (VArrs l)
   end.
 
 (* a program: ops applied in sequence to input 0; every intermediate result must be an array *)
